@@ -531,6 +531,8 @@ def t13_norm(run, fx):
     try:
         cnt, bad = fnread.compare(b, ["coord", "minv", "default", "maxv"], grid, _norm_spec, lambda coord, minv, default, maxv: minv <= default <= maxv, places=places)
     except fnread.Undecided as e:
+        if e.helper:
+            return run.notes.append("%s: default_normalize hands part of the decision to a helper (%s): not decided" % (rule, e))
         return run.fail(rule, "norm-shape", "default_normalize is no longer a decision list over the coordinate and the three axis values that this rule can read (%s): "
                         "the normalisation is not decided" % e, "%s:%s" % (b.file, b.line))
     if bad:
@@ -638,6 +640,8 @@ def t13_seg(run, fx):
                 if got != want and bad is None:
                     bad = (a, got, want)
     except fnread.Undecided as e:
+        if e.helper:
+            return run.notes.append("%s: SegmentMap::normalize hands part of the step to a helper (%s): not decided" % (rule, e))
         return run.fail(rule, "seg-shape", "one iteration of SegmentMap::normalize cannot be evaluated (%s): the segment map is not decided" % e, "%s:%s" % (b.file, b.line))
     if bad:
         a, got, want = bad
